@@ -136,7 +136,10 @@ func openFile(file string) (*os.File, error) {
 
 // createFile creates file.
 func createFile(file string) (*os.File, error) {
-	outfile, err := os.Create(file)
+	// Append mode, like openFile: a second descriptor opened on the same file
+	// (stdout and stderr of a step redirected to one file) must not be
+	// overwritten from this descriptor's own offset.
+	outfile, err := os.OpenFile(file, os.O_CREATE|os.O_APPEND|os.O_RDWR, 0666)
 	if err != nil {
 		return nil, err
 	}
